@@ -48,7 +48,7 @@ ssize_t getline(char **lineptr, size_t *n, FILE *stream)
     if (*lineptr != NULL) { free(*lineptr); g_live--; }
     char *b = malloc(CLI_BYTES + 1); __CPROVER_assume(b != NULL); g_live++;     /* constant capacity: no array theory needed */
     b[r] = 0;
-    size_t z = nondet_size(); __CPROVER_assume(z <= r && b[z] == 0);
+    size_t z = 0; while (b[z] != 0) z++;                 /* the first NUL of the line as read, exactly */
     *lineptr = b; *n = CLI_BYTES + 1; g_line = b; g_r = (ssize_t)r; g_nul = z;
     /* the line as read, before the code touches it */
     int lb1 = (int)(unsigned char)b[r - 1], lb2 = r >= 2 ? (int)(unsigned char)b[r - 2] : -1;
@@ -65,11 +65,13 @@ ssize_t getline(char **lineptr, size_t *n, FILE *stream)
 /* the program releases the last buffer itself */
 void model_free(void *p) { if (p != NULL && p == (void *)g_line) g_live--; free(p); }
 
+/* exact strlen (the buffers are tiny here): the loop is unwound with the others */
 size_t strlen(const char *s)
 {
     __CPROVER_assert(s == g_line + g_off, "strlen is applied to the line after at most one leading space");
-    __CPROVER_assert(s[g_end - g_off] == 0, "the line terminator has been replaced by NUL before the length is taken");
-    return g_fn - g_off;
+    size_t k = 0;
+    while (s[k] != 0) k++;
+    return k;
 }
 
 #define FIRST_ARG_(a, ...) a
@@ -113,10 +115,17 @@ int strcmp(const char *a, const char *b) { return nondet_bool() ? 0 : 1; }   /* 
 /* bin/main.h first (its include guard makes the #include in main.c a no-op): the real sanitize_utf8, then a wrapper
    through which parse_file's calls go: it checks the arguments, calls the real function and records the result */
 #include <bin/main.h>
+#define SANITIZED_OK ((sanitized == NULL && sanitized_size == 0) || (sanitized_size >= 1 && __CPROVER_rw_ok(sanitized, sanitized_size)))
 const char *model_sanitize(const char *text, size_t length)
 {
     __CPROVER_assert(rec_calls == 1 && text == rec_email && length == rec_len && text[length] == 0, "the echoed text is exactly the text that was validated");
-    g_san_ret = "model text";            /* the real function has its own unbounded proof (job cli_sanitize); its realloc of a symbolic size is too heavy here */
+    /* stand-in for the real function (which has its own unbounded proof, job cli_sanitize; its realloc of a symbolic size is too
+       heavy here).  It keeps the real function's ownership protocol: the precondition of its contract - the file-scope buffer is
+       NULL/0 or a live block of its recorded size - is checked, the buffer is allocated once and reused. */
+    __CPROVER_assert(SANITIZED_OK, "precondition of sanitize_utf8: its file-scope buffer is NULL/0 or a live block of the recorded size");
+    if (sanitized == NULL) { sanitized = malloc(4 * CLI_BYTES + 1); __CPROVER_assume(sanitized != NULL); sanitized_size = 4 * CLI_BYTES + 1; }
+    sanitized[0] = 0;
+    g_san_ret = sanitized;
     g_last_call = K_SANITIZE;
     return g_san_ret;
 }
@@ -141,6 +150,7 @@ void harness(void)
     __CPROVER_assert(rc != 0 || argc < 3 || (g_paths[0] == a2 && g_paths[1] == a1), "the files are processed, each once (last argument first)");
     __CPROVER_assert(rc == 0 || g_npaths == 0, "usage / set-up failure: no file is touched");
     __CPROVER_assert(g_file_open == 0 && g_live == 0, "nothing left open, every getline buffer released");
+    __CPROVER_assert(SANITIZED_OK, "the buffer owned by sanitize_utf8 is still NULL/0 or a live block");
     __CPROVER_assert(!(rc == 0 && argc == 3), "REACH: two files processed");
     __CPROVER_assert(!(rc == 2), "REACH: set-up failure");
 }
@@ -152,6 +162,7 @@ void harness(void)
     parse_file(f, e);
     __CPROVER_assert(g_file_open == 0, "the file is closed again");
     __CPROVER_assert(g_live == 0, "every getline buffer has been released");
+    __CPROVER_assert(SANITIZED_OK, "the buffer owned by sanitize_utf8 is still NULL/0 or a live block (its precondition for the next file)");
     __CPROVER_assert(!g_opened || (g_remaining == 0 && g_lines == g_total && g_pass + g_fail == g_lines - g_comments && g_msg == g_fail && g_summary == 1), "every line read; one PASS/FAIL record per non-comment line; every FAIL followed by its message; one summary line");
     __CPROVER_assert(!(g_opened && g_total == 3 && g_comments == 1 && g_fail == 1 && g_pass == 1), "REACH: a file with a comment, a passing and a failing line");
     __CPROVER_assert(!(!g_opened), "REACH: file cannot be opened");
